@@ -27,6 +27,9 @@ def load_known():
         KNOWN_ORPAT = set(d.get("or_pattern_fns", []))
         global KNOWN_MATCHVAL
         KNOWN_MATCHVAL = set(d.get("match_value_fns", []))
+        global REF_SIGS, REF_ADTS
+        REF_SIGS = d.get("signatures", {})
+        REF_ADTS = d.get("adts", {})
         global PLAIN_COLLECTS, PLAIN_EXTENDS
         PLAIN_COLLECTS = set(d.get("plain_collects", []))
         PLAIN_EXTENDS = set(d.get("plain_extends", []))
@@ -37,6 +40,8 @@ def load_known():
 
 PLAIN_EXTENDS = set()  # functions of the reference tree that call Extend::extend (the rules read those as written)
 PLAIN_COLLECTS = set()  # functions of the reference tree that call collect() directly on a closure-free iterator
+REF_ADTS = {}
+REF_SIGS = {}  # crate type -> reference signatures (see recognise_renames)
 KNOWN_MATCHVAL = set()  # likewise for matches whose arms bind out of different variants and meet again
 KNOWN_ORPAT = set()  # functions of the reference tree that bind variables in or-patterns: their merged shape is what the rules were written against
 
@@ -2089,6 +2094,163 @@ def unmerge_match_values(b, log):
         log.append("%s: %d match(es) whose arms bind out of different variants and meet again split into one continuation per arm" % (b["path"], done))
 
 
+def signatures(c):
+    """{function path: {args, ret, callees, callers, blocks}} for the functions (not closures, not derived code) of one crate's facts"""
+    bodies = {b["path"]: b for b in c["bodies"]}
+    out = {}
+    owner = lambda p: p.split("::{closure")[0]
+    for b in c["bodies"]:
+        if is_closure(b) or b.get("derived") or b.get("kind") not in ("Fn", "AssocFn"):
+            continue
+        out[b["path"]] = {"args": [b["locals"][i + 1]["ty"] for i in range(b["arg_count"])], "ret": b["locals"][0]["ty"], "callees": set(), "callers": set(),
+                          "blocks": len([x for x in b["blocks"] if not x.get("cleanup")])}
+    for b in c["bodies"]:
+        if b.get("derived"):
+            continue
+        me = owner(b["path"])
+        for _bi, _t, fn in calls_of(b):
+            g = local_callee(fn, bodies)
+            if g is not None and g["path"] in out and me in out and g["path"] != me:
+                out[me]["callees"].add(g["path"])
+                out[g["path"]]["callers"].add(me)
+    for v in out.values():
+        v["callees"], v["callers"] = sorted(v["callees"]), sorted(v["callers"])
+    return out
+
+
+def adt_fingerprints(c):
+    """{type path: fingerprint} of the crate's own structs and enums: kind, variant names and the names of their fields"""
+    out = {}
+    for a in c.get("adts", []):
+        if a.get("krate") != c.get("crate"):
+            continue
+        out[a["path"]] = [a.get("kind"), [[v.get("name") if a.get("kind") == "enum" else "", [f.get("name") for f in v.get("fields", [])]] for v in a.get("variants", [])]]
+    return out
+
+
+def recognise_type_renames(data, ref, log):
+    """a struct / enum of the reference tree that is gone while a new one with the same kind, variants and field names has appeared is that type under a
+    new name: every printed path is rewritten to the reference name"""
+    cur = adt_fingerprints(data)
+    missing = [p for p in ref if p not in cur]
+    new = [p for p in cur if p not in ref]
+    mp = {}
+    for m in missing:
+        cands = [n for n in new if cur[n] == ref[m] and n not in mp]
+        if len(cands) > 1:
+            same_mod = [n for n in cands if n.rsplit("::", 1)[0] == m.rsplit("::", 1)[0]]
+            cands = same_mod if len(same_mod) == 1 else cands
+        if len(cands) == 1 and (len(ref[m][1]) > 1 or any(v[1] for v in ref[m][1])):
+            mp[cands[0]] = m
+    if not mp:
+        return {}
+    rx = re.compile(r"(?<![\w:])(" + "|".join(re.escape(n) for n in sorted(mp, key=len, reverse=True)) + r")(?![\w])")
+
+    def sub(t):
+        return rx.sub(lambda m_: mp[m_.group(1)], t) if "::" in t else t
+
+    def walk(x):
+        if isinstance(x, list):
+            for i, v in enumerate(x):
+                if isinstance(v, str):
+                    x[i] = sub(v)
+                else:
+                    walk(v)
+        elif isinstance(x, dict):
+            for key, v in list(x.items()):
+                if isinstance(v, str):
+                    if key not in ("file", "k", "op", "ck", "name", "n"):
+                        x[key] = sub(v)
+                else:
+                    walk(v)
+    walk(data["bodies"])
+    walk(data.get("adts", []))
+    walk(data.get("statics", []))
+    for n, m in sorted(mp.items()):
+        log.append("type %s recognised as the reference tree's %s (renamed or moved; same variants and fields)" % (n, m))
+    return mp
+
+
+def recognise_renames(data, ref, log):
+    """a function of the reference tree that is gone while a new function with the same parameter and result types and the same place in the call graph
+    has appeared is that function under a new name (or in a new module): the facts are rewritten to the reference name, so that rules anchored on the
+    reference inventory examine the renamed function's code (a wrong pairing cannot hide anything: the code examined is still the code that runs)"""
+    cur = signatures(data)
+    missing = [p for p in ref if p not in cur]
+    new = [p for p in cur if p not in ref]
+    if not missing or not new:
+        return {}
+
+    def jac(a, b):
+        a, b = set(a), set(b)
+        return (len(a & b) / float(len(a | b))) if (a or b) else 1.0
+
+    def score(n, m, mp):
+        c, r = cur[n], ref[m]
+        inv = {v: k for k, v in mp.items()}
+        tr = lambda xs: [mp.get(x, x) for x in xs]
+        s_ = 0.0
+        if c["args"] == r["args"] and c["ret"] == r["ret"]:
+            s_ += 2.0
+        elif len(c["args"]) == len(r["args"]) and c["ret"] == r["ret"]:
+            s_ += 0.75
+        elif len(c["args"]) != len(r["args"]):
+            s_ -= 1.0
+        s_ += jac(tr(c["callees"]), r["callees"]) + jac(tr(c["callers"]), r["callers"])
+        if n.rsplit("::", 1)[0] == m.rsplit("::", 1)[0]:
+            s_ += 0.5
+        if n.rsplit("::", 1)[-1] == m.rsplit("::", 1)[-1]:
+            s_ += 1.0  # moved, not renamed
+        return s_
+    mp = {}
+    for _round in range(3):
+        best_for_m = {}
+        for m in missing:
+            if m in mp.values():
+                continue
+            sc = sorted(((score(n, m, mp), n) for n in new if n not in mp), reverse=True)
+            if sc and sc[0][0] >= 3.0 and (len(sc) == 1 or sc[0][0] - sc[1][0] >= 0.5):
+                best_for_m[m] = sc[0]
+        changed = False
+        for m, (s_, n) in sorted(best_for_m.items(), key=lambda kv: -kv[1][0]):
+            # mutual: m must also be the best reference function for n
+            back = sorted(((score(n, m2, mp), m2) for m2 in missing if m2 not in mp.values()), reverse=True)
+            if back and back[0][1] == m and n not in mp:
+                mp[n] = m
+                changed = True
+        if not changed:
+            break
+    if not mp:
+        return {}
+
+    def tr_path(p):
+        if not isinstance(p, str):
+            return p
+        for n, m in mp.items():
+            if p == n:
+                return m
+            if p.startswith(n + "::"):
+                return m + p[len(n):]
+        return p
+
+    def walk(x):
+        if isinstance(x, list):
+            for v in x:
+                walk(v)
+        elif isinstance(x, dict):
+            for key in ("path", "resolved", "closure", "disp"):
+                if key in x and isinstance(x[key], str):
+                    x[key] = tr_path(x[key])
+            for v in x.values():
+                walk(v)
+    walk(data["bodies"])
+    walk(data.get("statics", []))
+    for n, m in sorted(mp.items()):
+        log.append("%s recognised as the reference tree's %s (renamed or moved; same signature and callers)" % (n, m))
+    data["renamed"] = {m: n for n, m in mp.items()}
+    return mp
+
+
 # ------------------------------------------------------------------ driver
 
 
@@ -2097,6 +2259,16 @@ def preprocess(data, known=None, known_uses=None):
     if known is None:
         known, known_uses = load_known()
     log = []  # the facts were just read from disk for this process: they are rewritten in place
+    try:
+        ctype = {"bin": "bin", "executable": "bin", "lib": "lib", "rlib": "lib"}.get(str(data.get("crate_type")), str(data.get("crate_type")))
+        radts = REF_ADTS.get(ctype)
+        if radts:
+            recognise_type_renames(data, radts, log)
+        refs = REF_SIGS.get(ctype) or REF_SIGS.get(str(data.get("crate_type")))
+        if refs:
+            recognise_renames(data, refs, log)
+    except Exception as e:
+        log.append("rename recognition failed: %s" % e)
     bodies = {b["path"]: b for b in data["bodies"]}
     try:
         resolve_named_consts(data, log)
@@ -2208,6 +2380,10 @@ def write_known(facts, path=KNOWN_FILE):
             unmerge_or_patterns(copy.deepcopy(b), lg)
             if lg:
                 orp.add(b["path"])
+    sigs, adts = {}, {}
+    for ctype, c in facts.items():
+        sigs[ctype] = signatures(c)
+        adts[ctype] = adt_fingerprints(c)
     mvf = set()
     for c in facts.values():
         for b in c["bodies"]:
@@ -2223,7 +2399,8 @@ def write_known(facts, path=KNOWN_FILE):
                 lg = ["?"]
             if lg:
                 mvf.add(b["path"])
-    json.dump({"match_value_fns": sorted(mvf), "comment": "function inventory of the reference tree (rules are anchored on these names); closure-taking calls of the reference tree; "
+    json.dump({"match_value_fns": sorted(mvf), "adts": adts, "signatures": sigs, "signatures_comment": "per crate: parameter / result types and local callers / callees of every "
+               "function of the reference tree, used only to recognise a function that was renamed or moved (prep.recognise_renames)", "comment": "function inventory of the reference tree (rules are anchored on these names); closure-taking calls of the reference tree; "
                           "functions of the reference tree with variable-binding or-patterns",
                "functions": sorted(fns), "closure_uses": sorted(list(u) for u in uses), "or_pattern_fns": sorted(orp), "plain_collects": sorted(plain), "plain_extends": sorted(pext),
                "dormant_comment": "helpers without a caller in the reference tree and not named by any rule: if a change starts calling one it is treated like a new helper",
